@@ -343,9 +343,15 @@ class ExprMixin:
         if sv.kind == 'real': return SV('str', str_of_real(sv.t))
         if sv.kind == 'val' and sv.ty is not None and sv.ty.kind == 'str' and not sv.ty.opt:
             return SV('str', v_s(sv.t))
+        if sv.kind == 'val' and sv.ty is not None and sv.ty.kind == 'str':
+            return SV('str', z3.If(is_VStr(sv.t), v_s(sv.t), str_of_val(sv.t)))        # str(s) == s
         if sv.kind == 'val' and sv.ty is not None and sv.ty.kind == 'int':
             return SV('str', z3.If(is_VInt(sv.t), py_str(v_i(sv.t)), str_of_val(sv.t)))
-        if sv.kind in ('val', 'bool', 'none', 'ref'):
+        if sv.kind == 'bool':
+            return SV('str', z3.If(sv.t, str_const('True'), str_const('False')))       # str(True) == 'True'
+        if sv.kind == 'val' and sv.ty is not None and sv.ty.kind == 'bool':
+            return SV('str', z3.If(is_VBool(sv.t), z3.If(v_b(sv.t), str_const('True'), str_const('False')), str_of_val(sv.t)))
+        if sv.kind in ('val', 'none', 'ref'):
             return SV('str', str_of_val(to_val(sv)))
         raise Unsupported('str() of ' + sv.kind)
 
@@ -401,6 +407,10 @@ class ExprMixin:
         if o.kind == 'val' and o.ty is not None and o.ty.kind in ('dict', 'list'):
             a = self.as_ref(o, st, 'subscript')
             o = sv_ref(a, NonOpt(o.ty))
+        if o.kind == 'val' and (o.ty is None or o.ty.kind == 'val') and k.kind == 'str':
+            # dynamically typed container subscripted by a string: must be a dict (anything else: TypeError exit)
+            self.side_raise(st, 'TypeError', z3.Not(z3.And(is_VRef(o.t), st.h.cls(v_a(o.t)) == CLS_DICT)), 'subscript on non-dict')
+            o = sv_ref(v_a(o.t), Dict(None, None))
         if o.kind == 'ref' and o.cls == 'dict':
             return self.dict_get(o, k, st)
         if o.kind == 'ref' and o.cls == 'list':
